@@ -10,6 +10,7 @@ import contextlib
 import io
 import os
 
+from harness.c17.util import report
 from harness.vlib.core import Ctx, ToolFailure
 from harness.c17.resolution import run_driver_sharded, show_val
 
@@ -121,7 +122,7 @@ def keys_correspondence(ctx: Ctx, tables: dict) -> None:
         v = value if isinstance(value, str) else ("True" if value else "False")
         lines.append(f"K {kind} {key}={v}")
     model = run_driver_sharded(ctx, lines)
-    ndiff = 0
+    diffs = []
     for (kind, key, value, fam), mline in zip(cases, model):
         real = real_parse(kind, key, value)
         mo = model_outcome(mline)
@@ -130,15 +131,24 @@ def keys_correspondence(ctx: Ctx, tables: dict) -> None:
         ctx.dist("key_outcome", real.split(" ")[0].split("=")[0])
         ctx.count("traces_validated_against_impl")
         if real != mo:
-            ndiff += 1
             ctx.count("disagreements_checked")
-            if ndiff <= 3:
-                keys_search(ctx, tables, kind, key, value, fam, real, mo)
+            diffs.append((kind, key, value, fam, real, mo))
     ctx.sample({"key_case": lines[11], "model": model[11]})
-    ctx.coverage["key_disagreements"] = ndiff
+    ctx.coverage["key_disagreements"] = len(diffs)
+    if diffs:
+        # search: every differing key is examined with the property's oracle; the tie itself is reported
+        # (without input) only when none of them is a concrete source inequivalence
+        concrete = [d for d in diffs if keys_search(ctx, tables, *d)]
+        if not concrete:
+            kind, key, value, fam, real, mo = diffs[0]
+            ctx.violation(f"parse_section correspondence broken on {kind} key `{key} = {value}`: code [{real}] model [{mo}] "
+                          f"({len(diffs)} keys differ); no source inequivalence found for any of them",
+                          {"broken": "correspondence Driver/C17 `K` vs config_parser.parse_section", "kind": "key",
+                           "file_kind": kind, "key": key, "value": str(value), "real": real, "model": mo,
+                           "all_differing_keys": sorted({d[1] for d in diffs})[:40]}, found_input=False)
 
 
-def keys_search(ctx: Ctx, tables: dict, kind: str, key: str, value, fam: str, real: str, mo: str) -> None:
+def keys_search(ctx: Ctx, tables: dict, kind: str, key: str, value, fam: str, real: str, mo: str) -> bool:
     """Model ≠ parse_section on a key.  The property speaks about sources agreeing: look for a command-line
     flag whose config spelling this key is, and compare what the two sources set."""
     from harness.c17.sources import flag_table
@@ -148,15 +158,15 @@ def keys_search(ctx: Ctx, tables: dict, kind: str, key: str, value, fam: str, re
                 want = f"sets {f['dest']}={int(f['const'])}"
                 got = real_parse(kind, key, "True" if kind == "ini" else True)
                 if got != want and not got.startswith("rejected") and not got.startswith("ignored"):
-                    ctx.report({"class": "source-inequivalent", "flag": s, "source": kind},
+                    report(ctx, {"class": "source-inequivalent", "flag": s, "source": kind},
                                f"command-line flag {s} sets {f['dest']}={f['const']} but the {kind} line `{key} = True` gives [{got}]",
                                {"kind": "key", "file_kind": kind, "key": key, "value": "True", "flag": s, "cli_sets": want, "config_gives": got})
-                    return
+                    return True
                 if got != want:
-                    ctx.report({"class": "source-inequivalent", "flag": s, "source": kind},
+                    report(ctx, {"class": "source-inequivalent", "flag": s, "source": kind},
                                f"command-line flag {s} sets {f['dest']}={f['const']} but the {kind} line `{key} = True` is {got}",
                                {"kind": "key", "file_kind": kind, "key": key, "value": "True", "flag": s, "cli_sets": want, "config_gives": got})
-                    return
+                    return True
     # inversion families are documented for Boolean options: `no_<opt> = v` must set <opt> = not v
     attr_ty = {a["name"]: a["ty"] for a in tables["attrs"]}
     if fam == "no_" and attr_ty.get(key[3:]) == "bool" and key not in attr_ty:
@@ -164,23 +174,20 @@ def keys_search(ctx: Ctx, tables: dict, kind: str, key: str, value, fam: str, re
         for word, val in (("True", False), ("False", True)):
             got = real_parse(kind, key, word if kind == "ini" else (word == "True"))
             if got != f"sets {base}={int(val)}":
-                ctx.report({"class": "inversion", "key": key, "source": kind},
+                report(ctx, {"class": "inversion", "key": key, "source": kind},
                            f"`{key} = {word}` in a {kind} file gives [{got}], documented: {base} = {val}",
                            {"kind": "key", "file_kind": kind, "key": key, "value": word, "documented": f"sets {base}={int(val)}", "config_gives": got})
-                return
+                return True
     if (fam in ("allow", "disallow")) and key not in attr_ty:
         base = key[3:] if key.startswith("dis") else "dis" + key
         if attr_ty.get(base) == "bool":
             got = real_parse(kind, key, "True" if kind == "ini" else True)
             if got != f"sets {base}=0":
-                ctx.report({"class": "inversion", "key": key, "source": kind},
+                report(ctx, {"class": "inversion", "key": key, "source": kind},
                            f"`{key} = True` in a {kind} file gives [{got}], documented: {base} = False",
                            {"kind": "key", "file_kind": kind, "key": key, "value": "True", "documented": f"sets {base}=0", "config_gives": got})
-                return
-    ctx.violation(f"parse_section correspondence broken on {kind} key `{key} = {value}`: code [{real}] model [{mo}]; "
-                  "no source inequivalence found for it",
-                  {"broken": "correspondence Driver/C17 `K` vs config_parser.parse_section", "kind": "key",
-                   "file_kind": kind, "key": key, "value": str(value), "real": real, "model": mo}, found_input=False)
+                return True
+    return False
 
 
 # ------------------------------------------------------------------------------------------ invert_flag_name
@@ -249,7 +256,7 @@ def inline_correspondence(ctx: Ctx) -> None:
                     else:
                         want[k] = v
             if inline_changes(want) != real:
-                ctx.report({"class": "inline-merge", "comments": c},
+                report(ctx, {"class": "inline-merge", "comments": c},
                            f"inline comments {c} are merged to [{real}], documented (later wins, code lists accumulate): [{inline_changes(want)}]",
                            {"kind": "inline", "comments": c, "real": real, "documented": inline_changes(want)})
             else:
@@ -341,7 +348,7 @@ def process_search(ctx: Ctx, ini, cli, real, mo) -> None:
     got = dict(kv.split("=", 1) for kv in real.split(" ") if "=" in kv and not kv.startswith(("dis=", "en=", "imi=")))
     for k, v in want.items():
         if k in got and got[k] != show_val(v):
-            ctx.report({"class": "precedence-cli-config", "option": k},
+            report(ctx, {"class": "precedence-cli-config", "option": k},
                        f"command line {cli} over [mypy] {ini}: {k} = {got[k]}, the command line says {show_val(v)}",
                        {"kind": "process", "ini": ini, "cli": cli, "real": real})
             return
